@@ -1,5 +1,6 @@
 mod actors;
 mod actors_adm;
+mod actors_integ;
 mod actors_ora;
 mod actors_tx;
 mod fixtures;
